@@ -1,3 +1,4 @@
+import Hub.Proofs.ListPaging
 import Hub.Proofs.StoreInv
 import Hub.Proofs.SortPerm
 import Hub.Generated.Layout
@@ -120,6 +121,45 @@ theorem listing_once {db : DB} {S : Spec} (h : Inv db S) (ds : Nat) : ((listAll 
     have := (Hub.SortPerm.mem_sortBy _ _ p).1 (List.mem_filter.1 hp).1
     simpa using (List.mem_filter.1 this).2
   · exact hkeys.sublist ((List.filter_sublist).map _)
+
+
+/-! ## paging of the listing -/
+
+theorem pairwise_le_nodup_lt : ∀ (L : List (Nat × Ent)), L.Pairwise (fun a b => a.1 ≤ b.1) → (L.map (·.1)).Nodup →
+    L.Pairwise (fun a b => a.1 < b.1)
+  | [], _, _ => List.Pairwise.nil
+  | x :: xs, hp, hn => by
+    have hp' := List.pairwise_cons.1 hp
+    have hn' : x.1 ∉ xs.map (·.1) ∧ (xs.map (·.1)).Nodup := List.nodup_cons.1 hn
+    refine List.pairwise_cons.2 ⟨?_, pairwise_le_nodup_lt xs hp'.2 hn'.2⟩
+    intro y hy
+    have hle := hp'.1 y hy
+    have hne : x.1 ≠ y.1 := fun e => hn'.1 (e ▸ List.mem_map.2 ⟨y, hy, rfl⟩)
+    omega
+
+/-- the listing is in strictly increasing key order (under the refinement invariant). -/
+theorem listing_incr {db : DB} {S : Spec} (h : Inv db S) (ds : Nat) : Hub.ListPaging.Incr (listAll db ds) := by
+  apply pairwise_le_nodup_lt _ _ (listing_once h ds)
+  unfold listAll
+  have hs := Hub.ListPaging.sortBy_sorted' (fun (a b : (Nat × Nat) × VKey) => decide (a.1.2 < b.1.2))
+    (by intro a b c h1 h2; simp only [decide_eq_true_eq] at *; omega)
+    (by intro a b h1; simp only [decide_eq_true_eq, decide_eq_false_iff_not] at *; omega)
+    (db.latest.filter (fun (p : (Nat × Nat) × VKey) => p.1.1 == ds))
+  refine List.Pairwise.filterMap _ ?_ hs
+  intro a a' haa b hb b' hb'
+  simp only [Option.mem_def, Option.map_eq_some_iff] at hb hb'
+  obtain ⟨_, _, rfl⟩ := hb
+  obtain ⟨_, _, rfl⟩ := hb'
+  simp only [decide_eq_false_iff_not, Nat.not_lt] at haa
+  exact haa
+
+/-- **T-C01-2 (paged listing)**: in every state reached through the write path, reading a dataset's entities with any
+list of page sizes (each ≥ 1) by following the continuation tokens, and then reading the rest, returns exactly the
+listing — the last version of every stored id, each exactly once, none missing — from wherever the reader stood. -/
+theorem listing_paged {db : DB} {S : Spec} (h : Inv db S) (ds : Nat) (cs : List Nat) (hcs : ∀ c ∈ cs, 0 < c) :
+    (Hub.ListPaging.pages db ds none (cs ++ [0])).flatten = (listAll db ds).map (·.2) := by
+  have := Hub.ListPaging.pages_tile db ds (listing_incr h ds) cs 0 (Nat.zero_le _) hcs
+  simpa [Hub.ListPaging.tokAt] using this
 
 /-! ## tie to the Go source (regenerated facts) -/
 open Hub.Facts.Layout in
